@@ -44,6 +44,16 @@ MUTATIONS = [
  ('m34', 'C09', 'src/transform/adapt/low_rank.rs', r's/self.background_split = self.draws.len\(\);\n        assert/self.background_split = 0;\n        assert/', 'low-rank window: a switch forgets where the background starts (stale draws are never dropped)'),
  ('m35', 'C09', 'src/transform/adapt/low_rank.rs', r's/math.write_to_slice\(&collector.grad, &mut grad\);\n            self.grads.push_back\(grad\);/math.write_to_slice(&collector.draw, &mut grad);\n            self.grads.push_back(grad);/', 'low-rank window stores the draw as its own gradient'),
  ('m36', 'C09', 'src/transform/adapt/low_rank.rs', r's/for _ in 0..self.background_split \{/for _ in 1..self.background_split {/', 'low-rank switch keeps one stale draw'),
+ ('e03', 'C07', 'src/stepsize/dual_avg.rs', r's/\(1\. - w\) \* self\.hbar \+ w \* \(target - accept_stat\);/w * (target - accept_stat) + self.hbar * (1. - w);/', 'EQUIVALENT over the reals (operands commuted)'),
+ ('e04', 'C06', 'src/adapt_strategy.rs', r's/if draw >= self\.num_tune \{/if !(draw < self.num_tune) {/', 'EQUIVALENT (negated comparison)'),
+ ('e05', 'C09', 'src/adapt_strategy.rs', r's/if could_switch && \(!is_late\) \{/if !is_late \&\& could_switch {/', 'EQUIVALENT (operands of && swapped, both pure)'),
+ ('e06', 'C18', 'src/mclmc.rs', r's/if remaining_stack\.len\(\) >= max_halvings\.try_into\(\)\.unwrap\(\) \{/let limit: usize = max_halvings.try_into().unwrap();\n                    if !(remaining_stack.len() < limit) {/', 'EQUIVALENT (limit hoisted, comparison negated)'),
+ ('e07', 'C15', 'src/storage/zarr/common.rs', r's/if self\.len == self\.full_at \{\n            Some\(self\.finish_chunk\(\)\)/if !(self.len < self.full_at) {\n            Some(self.finish_chunk())/', 'EQUIVALENT on reachable states (len never exceeds full_at)'),
+ ('e08', 'C01', 'src/nuts.rs', r's/let \(first, last\) = match direction \{\n            Direction::Forward => \(&self\.left, &other\.right\),\n            Direction::Backward => \(&other\.left, &self\.right\),\n        \};/let (first, last) = if matches!(direction, Direction::Backward) {\n            (\&other.left, \&self.right)\n        } else {\n            (\&self.left, \&other.right)\n        };/', 'EQUIVALENT (match rewritten as if/else)'),
+ ('e09', 'C08', 'src/math/cpu_math.rs', r's/if \(!val\.is_finite\(\)\) \| \(val == 0f64\) \{\n                    if let Some\(fill_val\) = fill_invalid \{\n                        \*std_out = fill_val\.sqrt\(\);\n                        \*inv_std_out = fill_val\.recip\(\)\.sqrt\(\);\n                    \}\n                \} else \{\n                    let val = val\.clamp/if val == 0f64 || !val.is_finite() {\n                    if let Some(fill_val) = fill_invalid {\n                        *std_out = fill_val.sqrt();\n                        *inv_std_out = fill_val.recip().sqrt();\n                    }\n                } else {\n                    let val = val.clamp/', 'EQUIVALENT (short-circuit or, operands swapped)'),
+ ('e10', 'C02', 'src/dynamics/transformed_hamiltonian.rs', r's/math\.axpy\(&self\.transformed_gradient, &mut self\.velocity, epsilon \/ 2\.\);/math.axpy(\&self.transformed_gradient, \&mut self.velocity, 0.5 * epsilon);/', 'EQUIVALENT (eps\/2 written as 0.5*eps: exact in binary floating point and over the reals)'),
+ ('e11', 'C14', 'src/storage/hashmap.rs', r's/\(HashMapValue::F64\(vec\), Value::F64\(v\)\) => vec\.extend\(v\),/(HashMapValue::F64(vec), Value::F64(v)) => {\n                for x in v {\n                    vec.push(x);\n                }\n            }/', 'EQUIVALENT (extend written as a push loop)'),
+ ('e12', 'C13', 'src/sampler.rs', r's/            \.as_mut\(\)\n            \.map\(\|v\| v\.flush\(\)\)\n            \.transpose\(\)\?;\n        Ok\(\(\)\)/            .as_mut()\n            .map_or(Ok(()), |v| v.flush())/', 'EQUIVALENT (map+transpose+? written as map_or)'),
  ('e01', 'C18', 'src/mclmc.rs', r's/&& self.draw_count == self.switch_draw/&& self.draw_count >= self.switch_draw/', 'EQUIVALENT on reachable states: must not be flagged'),
  ('e02', 'C08', 'src/math/cpu_math.rs', r's/\*mean \+= diff \* diff_scale;\n                \*var \+= diff \* diff;/*mean += diff * diff_scale;\n                *var += diff * (x - *mean);/', 'EQUIVALENT for the property (ratio of variances unchanged): must not be flagged'),
 ]
